@@ -19,7 +19,7 @@ import XjsModel.Props.C15
     (3) every tree of the language is printed (compact mode, token level) so that the printed tokens parse back to the
         same tree without error (C03, whole programs) — so source tree = tree of the output;
     (4) an error-free tree is complete and compiles in every configuration without failing (C11).
-  Known findings in the oracle: nosemi-hazard (D6), restricted-production (D2), trim-in-literal (D5).
+  Known findings in the oracle: nosemi-hazard (D6), trim-in-literal (D5) (restricted productions: repaired, f7f7cd3).
 -/
 namespace Xjs.C01
 open Xjs Xjs.RS
